@@ -154,12 +154,18 @@ def gen_doc(rng, *, kern_only=False, max_spines=4, splits=True, core=False, comm
     def join_split():
         nonlocal paths
         k = rng.choice(join_points())
+        # a run of two or more adjacent sub-spines of one spine joins in one step (*v *v *v closes a nested split)
+        e = k + 1
+        while e + 1 < len(paths) and paths[e + 1][0] == paths[k][0] and rng.random() < 0.5:
+            e += 1
         cells = []
         for i, (sp, ht) in enumerate(paths):
-            cells.append(Cell('*v' if i in (k, k + 1) else '*', 'spineop' if i in (k, k + 1) else 'interp', sp, ht))
+            cells.append(Cell('*v' if k <= i <= e else '*', 'spineop' if k <= i <= e else 'interp', sp, ht))
         g.lines.append(('row', cells))
-        paths = paths[:k + 1] + paths[k + 2:]
+        paths = paths[:k + 1] + paths[e + 1:]
         g.flags.add('join')
+        if e > k + 1:
+            g.flags.add('wide-join')
 
     for m in range(nmeasures):
         if m > 0 or opening:
